@@ -244,14 +244,22 @@ func compare(m, t side) (*difference, compareStats) {
 		atomsOf(a.where, onlyM)
 		atomsOf(b.where, onlyT)
 		atomsOf(b.where, set)
+		guards := map[string]string{}
+		collectGuards(a.where, guards)
+		collectGuards(b.where, guards)
+		isGuard := map[string]bool{}
+		for _, g := range guards {
+			isGuard[g] = true
+			set[g] = true
+		}
 		var lm, lt []string
 		for x := range onlyM {
-			if !onlyT[x] {
+			if !onlyT[x] && !isGuard[x] {
 				lm = append(lm, x)
 			}
 		}
 		for x := range onlyT {
-			if !onlyM[x] {
+			if !onlyM[x] && !isGuard[x] {
 				lt = append(lt, x)
 			}
 		}
@@ -293,8 +301,12 @@ func compare(m, t side) (*difference, compareStats) {
 			index[x] = j
 		}
 		k := len(atoms)
-		tm := table(reading(a.where, deviations{}, index), k)
-		tt := table(reading(b.where, deviations{}, index), k)
+		guardOf := map[int]int{}
+		for atom, g := range guards {
+			guardOf[index[atom]] = index[g]
+		}
+		tm := table(reading(a.where, deviations{}, index, guardOf), k)
+		tt := table(reading(b.where, deviations{}, index, guardOf), k)
 		st.atoms += k
 		st.assignments += len(tm)
 		if d := sameTable(tm, tt); d >= 0 {
@@ -305,7 +317,7 @@ func compare(m, t side) (*difference, compareStats) {
 				if best >= 0 && bits.OnesCount(uint(mask)) >= bits.OnesCount(uint(best)) {
 					continue
 				}
-				if sameTable(table(reading(a.where, deviationSet(mask), index), k), tt) < 0 {
+				if sameTable(table(reading(a.where, deviationSet(mask), index, guardOf), k), tt) < 0 {
 					best = mask
 				}
 			}
